@@ -73,7 +73,7 @@ def run(chk):
     # compound integers
     cints = set()
     for c in (0, 2 ** 11, 2 ** 29, 2 ** 31, 2 ** 31 + 2 ** 29, 2 ** 32):
-        cints |= set(range(max(0, c - 3), c + 4))
+        cints |= set(range(max(0, c - 3), min(c + 4, 2 ** 32)))     # "the 32-bit compound integer": 0 .. 2^32-1
     cints |= {rng.randrange(2 ** 32) for _ in range(500)}
     for c in sorted(cints):
         try:
@@ -90,7 +90,12 @@ def run(chk):
         if res != [[0]] and 2 ** 11 <= c < 2 ** 29:
             chk.violation("compound-accepts-wide-standard", "standard id wider than 11 bits accepted", dict(compound=c))
         chk.case(("cint", c), True)
-        add(904, [[c]], res, dict(compound=c))
+        # tied where the property speaks: compound forms of identifiers (lossless) and standard forms wider than 11 bits (cannot be
+        # constructed); what becomes of other 32-bit patterns (bits 29/30 set) is left open
+        if (0 <= c < 2 ** 29) or (2 ** 31 <= c < 2 ** 31 + 2 ** 29):
+            add(904, [[c]], res, dict(compound=c))
+        else:
+            chk.count("compound-pattern-of-no-identifier(not tied)")
 
     # ---- J1939 fields: each field exhaustively, others at boundary/random ----
     FIELDS = [("sa", 8), ("ps", 8), ("pf", 8), ("dp", 1), ("edp", 1), ("prio", 3)]
@@ -168,8 +173,9 @@ def run(chk):
     sample_ids = rng.sample(sorted(ids), 300 if not thorough else 3000)
     for i in sample_ids:
         f0 = fields(i)
-        for which, name, vals in ((2, "prio", list(range(8)) + [8, 9, 255]), (1, "sa", [0, 1, 254, 255, 256, 0x1FE, rng.randrange(256)]),
-                                  (0, "pgn", [0, 0xFEF1, 0xEF12, 0x3FFFF, 0x40005, 0x1ABCD, rng.randrange(1 << 18)])):
+        # values of the field only ("each field exhaustively"): what a setter does with a number that does not fit is left open
+        for which, name, vals in ((2, "prio", list(range(8))), (1, "sa", [0, 1, 127, 128, 254, 255, rng.randrange(256)]),
+                                  (0, "pgn", [0, 0xFEF1, 0xEF12, 0x3FFFF, 0x20005, 0x1ABCD, rng.randrange(1 << 18)])):
             for v in vals:
                 a = C.ArbitrationId(i, True)
                 if which == 2:
